@@ -182,7 +182,29 @@ var (
 	Reads int64
 	// ReadBytes counts bytes handed out by reads.
 	ReadBytes int64
+	// ReadFault is consulted before every read-side operation in mem mode (open of an existing file without
+	// O_CREATE, read, readat, readfile, readdir, stat); seq numbers these operations from 0 since UseMem /
+	// ResetReadSeq. A non-nil error is returned to the caller instead of performing the operation.
+	ReadFault func(seq int, kind, path string) error
+	rseq      int
 )
+
+// ResetReadSeq restarts the numbering of read-side operations.
+func ResetReadSeq() { rseq = 0 }
+
+// ReadSeq returns the number of read-side operations seen so far.
+func ReadSeq() int { return rseq }
+
+func rdo(kind, path string) error {
+	n := rseq
+	rseq++
+	if ReadFault != nil {
+		if err := ReadFault(n, kind, path); err != nil {
+			return perr(kind, path, err)
+		}
+	}
+	return nil
+}
 
 // UseMem switches to a fresh in-memory file system (and clears the log and the fault hook).
 func UseMem() {
@@ -190,6 +212,8 @@ func UseMem() {
 	cur = NewState()
 	oplog = nil
 	Fault = nil
+	ReadFault = nil
+	rseq = 0
 	Reads, ReadBytes = 0, 0
 }
 
@@ -273,6 +297,11 @@ func OpenFile(name string, flag int, perm os.FileMode) (*File, error) {
 		return &File{real: f, path: name}, nil
 	}
 	p := clean(name)
+	if _, exists := cur.Files[p]; (exists || cur.Dirs[p]) && flag&(os.O_CREATE|os.O_WRONLY|os.O_RDWR) == 0 {
+		if err := rdo("open", p); err != nil {
+			return nil, err
+		}
+	}
 	if cur.Dirs[p] {
 		if flag&(os.O_WRONLY|os.O_RDWR) != 0 {
 			return nil, perr("open", name, syscall.EISDIR)
@@ -332,6 +361,9 @@ func (f *File) Read(b []byte) (int, error) {
 	if f.flag&os.O_WRONLY != 0 {
 		return 0, perr("read", f.path, syscall.EBADF)
 	}
+	if err := rdo("read", f.path); err != nil {
+		return 0, err
+	}
 	Reads++
 	d := f.data()
 	if f.pos >= int64(len(d)) {
@@ -351,6 +383,9 @@ func (f *File) ReadAt(b []byte, off int64) (int, error) {
 		return f.real.ReadAt(b, off)
 	}
 	if err := f.live(); err != nil {
+		return 0, err
+	}
+	if err := rdo("readat", f.path); err != nil {
 		return 0, err
 	}
 	Reads++
@@ -564,6 +599,11 @@ func Stat(name string) (os.FileInfo, error) {
 		return os.Stat(name)
 	}
 	p := clean(name)
+	if _, ok := cur.Files[p]; ok || cur.Dirs[p] {
+		if err := rdo("stat", p); err != nil {
+			return nil, err
+		}
+	}
 	if cur.Dirs[p] {
 		return &info{name: filepath.Base(p), dir: true}, nil
 	}
@@ -687,6 +727,9 @@ func ReadDir(name string) ([]os.DirEntry, error) {
 		}
 		return nil, perr("open", name, syscall.ENOENT)
 	}
+	if err := rdo("readdir", p); err != nil {
+		return nil, err
+	}
 	var infos []*info
 	for q, id := range cur.Files {
 		if filepath.Dir(q) == p {
@@ -717,6 +760,9 @@ func ReadFile(name string) ([]byte, error) {
 	defer f.Close()
 	if f.id < 0 {
 		return nil, perr("read", name, syscall.EISDIR)
+	}
+	if err := rdo("read", f.path); err != nil {
+		return nil, err
 	}
 	Reads++
 	d := f.data()
